@@ -11,6 +11,8 @@ def obligations(tier):
     for k in ((1, 3) if tier == "quick" else (1, 2, 3, 4)):
         o += tc.batch_obligations("suffix%d" % k, fam, "h_load.c", {"P_SUFFIX": k}, variant="dbg", truncations=False, weight_cap=160, max_cases=24, funcs=F, ptrcheck=False,
                                   desc="accepted item x followed by %d fully symbolic bytes y: same read, same tree as x alone" % k)
+    o += tc.batch_obligations("sequence_xyx", fam, "h_load.c", {"P_SEQ": 1}, variant="dbg", truncations=False, weight_cap=90, max_cases=12, funcs=F, ptrcheck=False, extra_unwind=6,
+                              desc="concatenation x||y||x of accepted items (pairs of consecutive family members) split by the documented loop offset += read into exactly those items")
     return o
 
 
